@@ -321,6 +321,19 @@ async fn task_case(app: &axum::Router, data_dir: &std::path::Path, ws: &std::pat
     let frames: Vec<Value> = log.lines().filter_map(|l| serde_json::from_str::<Value>(l).ok()).filter(|v| v["session_id"].as_str() == Some(id.as_str())).collect();
     rep.traces_validated += 1;
     let compact = check_lifecycle(&frames, rep, &case);
+    // the Lean lifecycle automaton (the object of theorem lifecycle_complete) must accept the real trace
+    let labels: Vec<String> = frames
+        .iter()
+        .map(|f| match f["type"].as_str().unwrap_or("?") {
+            "tool_task_status" => format!("status:{}", f["status"].as_str().unwrap_or("?")),
+            "tool_task_output_delta" => "delta".to_string(),
+            other => other.replace("tool_task_", ""),
+        })
+        .collect();
+    let verdict = model.ask(&format!("c17l {} {}", labels.len(), labels.join(" ")));
+    if verdict != "accept" {
+        rep.disagreement("task lifecycle automaton", case.clone(), &labels.join(" "), &verdict);
+    }
     rep.count(&format!("task_{kind}"));
     rep.nontrivial_case(&format!("{kind}|{compact}|{}", args));
     // output: ranges named by the frames tile the stored bytes; page walk reproduces; preview is a prefix
